@@ -106,6 +106,9 @@ theorem rescale_kspace_io_eq : Gen.C10.rescaleKspaceIO = Crop.rescaleKspaceIO :=
 /-- no method other than `__init__` (nor a private helper it calls) writes instance, class or module state -/
 theorem module_state_writes_none : Crop.stateWritesOk Gen.C10.moduleStateWrites = true := by decide
 
+/-- every reference to a crop / pad primitive inside `direct/` resolves to the modelled definition -/
+theorem primitive_callers_ok : Crop.callersOk Gen.C10.primitiveCallers = true := by decide +kernel
+
 /-- no primitive and no module call modifies an argument in place -/
 theorem no_inplace_on_inputs : Gen.C10.inplaceOnInputs = [] := by decide
 
